@@ -18,7 +18,7 @@ func VerifC18Exec() {
 		w = 3
 	}
 	bs := match.Bindings(verif.AnyMap("bs", verif.Opts{Depth: 1, Width: w}))
-	res := verif.Choose("result", 7)
+	res := verif.Choose("result", 8)
 	var out match.Bindings
 	if res == 1 || res == 4 {
 		out = match.Bindings(verif.AnyMap("out", verif.Opts{Depth: 1, Width: 2}))
@@ -35,6 +35,12 @@ func VerifC18Exec() {
 			return nil, errors.New("failed") // failure, no execution
 		case 4:
 			return NewExecution(out), errors.New("partial")
+		case 7:
+			// delete everything in place, then fail, handing the same map back
+			for k := range in {
+				delete(in, k)
+			}
+			return NewExecution(in), errors.New("failed after deleting")
 		case 5:
 			// delete everything in place
 			for k := range in {
@@ -61,6 +67,16 @@ func VerifC18Exec() {
 		verif.Assume(!panicked)
 	}
 	verif.Assert("exec-does-not-panic", !panicked)
+	if err != nil && exe != nil && exe.Bs != nil {
+		// a failing action that hands bindings back: the permanent ones are still in place
+		for _, k := range verif.Keys(bs) {
+			if strings.HasSuffix(k, "!") {
+				got, have := exe.Bs[k]
+				verif.Assert("permanent-kept-on-failure", have)
+				verif.Assert("permanent-value-on-failure", verif.JSONEqual(got, bs[k]))
+			}
+		}
+	}
 	if err == nil && exe != nil && exe.Bs != nil {
 		verif.Reach("completed-with-bindings")
 		for _, k := range verif.Keys(bs) {
@@ -72,4 +88,46 @@ func VerifC18Exec() {
 		}
 	}
 	verif.Reach("end")
+}
+
+// VerifC18Step: at the level of a whole step (action, then guarded or unguarded branches, error routing):
+// every permanent binding of the state is present, with its previous value, in the state the step
+// produces - whatever the action or guard deleted, overwrote or returned instead, and also when the
+// action fails or the step ends at an error-handling node.
+func VerifC18Step() {
+	verif.MapOrderInsertion(true)
+	o := specOpts{actionMode: 1, noNilBranches: true, noMessage: true, branches: 1, patMode: 1, withGuards: true, fixedTarget: true,
+		actKinds: kindsC18, grdKinds: kindsGuard, pooled: true, small: true}
+	if verif.Tier() > 0 {
+		o.small = false
+	}
+	b := buildSpec(o)
+	bo := smallBindingsOpts()
+	bo.Width = 2
+	if verif.Choose("symbolicNames", 2) == 1 {
+		bo.Pool = nil // the solver chooses which names end in '!'
+		bo.Width = 1
+	}
+	st := &State{NodeName: "n0", Bs: match.Bindings(verif.AnyMap("bs", bo))}
+	orig := st.Bs.Copy()
+	var stride *Stride
+	panicked := true
+	func() {
+		defer func() { recover() }()
+		stride, _ = b.spec.Step(context.Background(), st, nil, nil, nil)
+		panicked = false
+	}()
+	verif.Assume(!panicked) // C07
+	if stride == nil || stride.To == nil {
+		verif.Reach("no-transition")
+		return
+	}
+	verif.Reach("transition")
+	for _, k := range verif.Keys(orig) {
+		if strings.HasSuffix(k, "!") {
+			got, have := stride.To.Bs[k]
+			verif.Assert("permanent-binding-kept", have)
+			verif.Assert("permanent-binding-unchanged", verif.JSONEqual(got, orig[k]))
+		}
+	}
 }
